@@ -279,7 +279,7 @@ fn well_formed(t: &Ty, boundaries: usize) -> bool {
 
 pub fn check(rep: &Report) {
     let quick = rep.quick();
-    let n = if quick { 40_000 } else { 600_000 };
+    let n = if quick { 160_000 } else { 900_000 };
     let b = qv::builtins();
     crate::pool::run_indexed(n, 64, |i| {
         let mut rng = Rng::derive(rep.seed, "C09", 0, i as u64);
